@@ -332,6 +332,30 @@ theorem C25_null_bound_full_false (d : Dialect) (hd : d ≠ .sqlite) : ¬ C25_nu
     (by cases d <;> simp [dialectGuard, noNegConstLen, startInRange, noMixedClip, singleByte, Arg.isConstStart, Arg.isConstStop] <;> decide)
   cases d <;> first | exact absurd rfl hd | (revert this; decide)
 
+/-! ### SQLite's built-in `substr` as a slice implementation (constant offsets from the beginning)
+
+`substr(s, start+1, stop-start)` is what a "no Python callback" fast path in `SQLiteBuilder.STRING_SLICE` would emit.
+It is Python's slice exactly when `start ≤ stop`; a negative length makes SQLite return the characters BEFORE the start. -/
+
+theorem C25_sqlite_builtin_substr (s : List Char) (a b : Int) (ha : 0 ≤ a) (hab : a ≤ b) :
+    substr3V .sqlite s (a + 1) (b - a) = .ok (.str (pySlice s (some a) (some b))) := by
+  simp only [substr3V, sqliteSubstr]
+  congr 2
+  have h1 : ¬ (b - a < 0) := by omega
+  have h2 : ¬ (a + 1 < 0) := by omega
+  have h3 : a + 1 > 0 := by omega
+  simp only [h1, h2, h3, if_false, if_true, decide_false, Bool.false_eq_true]
+  refine (sliceNat_int s a (b - a) _ _ (by omega) (by omega) ha (by omega)).trans ?_
+  apply win_eq_pySlice; intro k hk0 hkn; unfold inPy; omega
+
+/-- witness `'hello'[3:1]`: `substr('hello', 4, -2)` is `'el'`, Python gives `''` -/
+theorem C25_sqlite_builtin_substr_negative_length_false :
+    ¬ ∀ (s : List Char) (a b : Int), 0 ≤ a → 0 ≤ b →
+        substr3V .sqlite s (a + 1) (b - a) = .ok (.str (pySlice s (some a) (some b))) := by
+  intro h
+  have := h "hello".toList 3 1 (by decide) (by decide)
+  revert this; decide
+
 /-! ### indexes: `s[i]` -/
 
 /-- `['SUBSTR', e, index_sql, ['VALUE', 1]]` -/
@@ -491,6 +515,7 @@ example : myExact "abcdef".toList (some (-4)) (some 9) := by
 example : ¬ myExact "abcdef".toList (some (-4)) (some 5) := by
   intro h; exact h.2 ⟨by decide, by decide, 5, rfl, by decide, by decide⟩
 example : eval .pg (envNull "abc".toList) (sliceFor .pg (.col "s") (.expr (.param "k")) (.const 2)) = .ok .null := by decide
+example : substr3V .sqlite "hello".toList 4 (-2) = .ok (.str "el".toList) := by decide
 example : pyIndex "abc".toList (-1) = some 'c' := by decide
 example : (getitemSlice (.expr (.col "s")) (.param "a" (some 1)) (.param "b" (some (-1))) []).2.lookup "a" = some 1 := by decide
 example : pyStringSliceUdf (.str "abcdef".toList) (.str ['-', '2']) .null = .ok (.str "ef".toList) := by decide
